@@ -949,10 +949,10 @@ Definition ns_params (th : Z) (g : graph) : nsparams := mkNsParams th (Z.of_nat 
 
 Lemma exec_ns_positioner_eq : forall th f s g,
   exec_ns_positioner th f s g =
-  (do a <- phase2 NetworkSimplex (ns_params th g) (aux_graph f s g); Ok (ns_finish g a)).
+  (do a <- assign_layers NetworkSimplex (ns_params th g) (aux_graph f s g); Ok (ns_finish g a)).
 Proof.
   intros th f s g. unfold exec_ns_positioner, ns_params.
-  destruct (phase2 NetworkSimplex _ (aux_graph f s g)) as [a|e]; cbn [bind]; [|reflexivity].
+  destruct (assign_layers NetworkSimplex _ (aux_graph f s g)) as [a|e]; cbn [bind]; [|reflexivity].
   unfold ns_finish, ns_lbound, ns_g1, ns_xs, ns_g0, ns_idx, shift_x. cbv zeta.
   destruct (flat_map l_nodes (g_L (with_L g (map (fun l => set_layer_h (layer_height g (l_nodes l) (l_h l)) l) (g_L g)))))
     as [|n0 t]; reflexivity.
@@ -1005,11 +1005,11 @@ Theorem ns_positioner_x : forall th f s g g',
   exec_ns_positioner th f s g = Ok g' -> layers_wf g -> NoDup (g_N g) ->
   (forall n, in_layers g n -> In n (g_N g)) ->
   exists a lb,
-    phase2 NetworkSimplex (ns_params th g) (aux_graph f s g) = Ok a /\
+    assign_layers NetworkSimplex (ns_params th g) (aux_graph f s g) = Ok a /\
     forall n, in_layers g n -> nX g' n = inQ (layer_of a (ns_idx g n)) - nW g n / 2 - lb.
 Proof.
   intros th f s g g' H Hwf HND HN. rewrite exec_ns_positioner_eq in H.
-  destruct (phase2 NetworkSimplex (ns_params th g) (aux_graph f s g)) as [a|e]; cbn [bind] in H; [|discriminate].
+  destruct (assign_layers NetworkSimplex (ns_params th g) (aux_graph f s g)) as [a|e]; cbn [bind] in H; [|discriminate].
   inversion H; subst g'. clear H. exists a.
   unfold ns_finish. destruct (ns_xs g) as [|n0 t] eqn:E.
   - exists 0. split; [reflexivity|]. intros n Hn. exfalso. unfold in_layers in Hn.
@@ -1032,7 +1032,7 @@ Definition ns_feasible (s : Q) (g a : graph) : Prop :=
 Theorem ns_positioner_separation : forall th f s g g' l k p n,
   exec_ns_positioner th f s g = Ok g' -> layers_wf g -> NoDup (g_N g) ->
   (forall n, in_layers g n -> In n (g_N g)) ->
-  (forall a, phase2 NetworkSimplex (ns_params th g) (aux_graph f s g) = Ok a -> ns_feasible s g a) ->
+  (forall a, assign_layers NetworkSimplex (ns_params th g) (aux_graph f s g) = Ok a -> ns_feasible s g a) ->
   In l (g_L g) -> nth_error (l_nodes l) k = Some p -> nth_error (l_nodes l) (S k) = Some n ->
   nX g' p + nW g p + s <= nX g' n.
 Proof.
@@ -1055,7 +1055,7 @@ Print Assumptions ns_positioner_separation.
 Theorem ns_positioner_no_overlap : forall th f s g g' l i j a b,
   exec_ns_positioner th f s g = Ok g' -> layers_wf g -> sizes_ok s g -> NoDup (g_N g) ->
   (forall n, in_layers g n -> In n (g_N g)) ->
-  (forall a, phase2 NetworkSimplex (ns_params th g) (aux_graph f s g) = Ok a -> ns_feasible s g a) ->
+  (forall a, assign_layers NetworkSimplex (ns_params th g) (aux_graph f s g) = Ok a -> ns_feasible s g a) ->
   In l (g_L g) -> (i < j)%nat ->
   nth_error (l_nodes l) i = Some a -> nth_error (l_nodes l) j = Some b ->
   nX g' a + nW g a + s <= nX g' b.
@@ -1141,14 +1141,14 @@ Example sx_ns_result :
 Proof. vm_compute. reflexivity. Qed.
 
 Example sx_ns_aux_layers :
-  match phase2 NetworkSimplex (ns_params 1 sx_g) (aux_graph 1 5 sx_g) with
+  match assign_layers NetworkSimplex (ns_params 1 sx_g) (aux_graph 1 5 sx_g) with
   | Ok a => Some (map (fun n => layer_of a (ns_idx sx_g n)) [0; 1; 2; 3]%nat)
   | Err _ => None
   end = Some [0; 28; 0; 28]%Z.
 Proof. vm_compute. reflexivity. Qed.
 
 Example sx_ns_feasible : forall a,
-  phase2 NetworkSimplex (ns_params 1 sx_g) (aux_graph 1 5 sx_g) = Ok a -> ns_feasible 5 sx_g a.
+  assign_layers NetworkSimplex (ns_params 1 sx_g) (aux_graph 1 5 sx_g) = Ok a -> ns_feasible 5 sx_g a.
 Proof.
   intros a Ha. vm_compute in Ha. inversion Ha; subst a. clear Ha.
   intros l k p n Hl Hp Hn.
